@@ -218,6 +218,12 @@ def run(ctx):
             for a in grid:
                 norm.compute(float(a), float(1.0 - a))
                 norm.compute(np.float64(a), np.array(a))
+            norm.compute([0.25, 0.5, 1.0], [0.75, 0.5, 0.0])  # plain lists
+            for ia in (0, 1):
+                for ib in (0, 1):
+                    norm.compute(ia, ib)  # Python ints
+            norm.compute(grid[:1], grid[-1:])  # batches of one
+            norm.compute(grid.astype(np.float32)[:5], 0.5)
             # associativity on the full grid of triples, through monitored calls
             if name != "NormalizedSum":
                 A, B, C = grid[:, None, None], grid[None, :, None], grid[None, None, :]
